@@ -11,8 +11,10 @@ import (
 	"encoding/json"
 	"fmt"
 	"os"
+	"runtime"
 	"strings"
 	"sync"
+	"sync/atomic"
 	"testing"
 	"time"
 
@@ -193,6 +195,120 @@ func c16FinalVsClose(rt *rapid.T) {
 	}
 	rec.Case(strings.HasSuffix(verdict, "parked"), stats.HashString("finalclose/"+string(sj)), func() string { return "final response racing with close: " + string(sj) + " -> " + verdict },
 		"final-vs-close", "final-vs-close:"+strings.TrimPrefix(verdict, "OK "))
+}
+
+// Stress form of the same race for the windows no hook point can own (the in-flight handler's Close closing a channel that
+// the delivering goroutine has already picked for its send): many short rounds of {one managed request, its final response
+// delivered by one goroutine, the handler closed by another after 0..6 yields}. A panic anywhere is the violation; the
+// request must also end up completed.
+type c16FinalStressSpec struct {
+	Rounds  int
+	Workers int
+	Paged   bool
+}
+
+func c16FinalStressSession(args []string, _ []byte) string {
+	var spec c16FinalStressSpec
+	if err := json.Unmarshal([]byte(args[0]), &spec); err != nil {
+		return "FAIL: harness: " + err.Error()
+	}
+	var wg sync.WaitGroup
+	fails := make(chan string, spec.Workers)
+	for g := 0; g < spec.Workers; g++ {
+		wg.Add(1)
+		go func(g int) {
+			defer wg.Done()
+			for n := 0; n < spec.Rounds; n++ {
+				ctx, cancel := context.WithCancel(context.Background())
+				h := client.NewVerifInFlight(ctx, 2, 2, time.Hour)
+				f := reqFrame(client.ManagedStreamId)
+				req, err := h.Enqueue(f)
+				if err != nil {
+					cancel()
+					fails <- "harness: enqueue: " + err.Error()
+					return
+				}
+				id := f.Header.StreamId
+				done := make(chan string, 1)
+				go func() {
+					done <- recovered(func() {
+						if spec.Paged {
+							_ = h.Deliver(pageFrame(id, 1, true))
+						} else {
+							_ = h.Deliver(finalFrameV(id, 1, 0))
+						}
+					})
+				}()
+				for k := 0; k < (n+g)%7; k++ {
+					runtime.Gosched()
+				}
+				msg := recovered(func() {
+					if n%2 == 0 {
+						cancel()
+					}
+					h.Close()
+				})
+				if m2 := <-done; m2 != "" {
+					msg = m2
+				}
+				cancel()
+				if msg != "" {
+					fails <- fmt.Sprintf("routing a final response while the in-flight handler is closed panicked (round %d of worker %d): %s", n, g, msg)
+					return
+				}
+				select {
+				case _, ok := <-req.Incoming():
+					if ok {
+						if _, ok := <-req.Incoming(); ok {
+							fails <- "a second frame was delivered"
+							return
+						}
+					}
+				case <-time.After(5 * time.Second):
+					fails <- fmt.Sprintf("the request was never completed (round %d): IsDone=%v Err=%v", n, req.IsDone(), req.Err())
+					return
+				}
+			}
+		}(g)
+	}
+	wg.Wait()
+	select {
+	case m := <-fails:
+		return "FAIL: " + m
+	default:
+	}
+	return "OK"
+}
+
+func init() { workerHandlers["c16finalstress"] = c16FinalStressSession }
+
+var finalStressN atomic.Int64 // every stress case is a different sample of interleavings
+
+func c16FinalVsCloseStress(rt *rapid.T) {
+	if !everyNth("c16FinalVsCloseStress", 4, 4) {
+		return
+	}
+	defer noteFailure()
+	rec := stats.For("C16")
+	spec := c16FinalStressSpec{Rounds: rapid.SampledFrom([]int{2000, 5000, 10000}).Draw(rt, "rounds"), Workers: rapid.SampledFrom([]int{2, 4, 8}).Draw(rt, "workers"), Paged: rapid.Bool().Draw(rt, "paged")}
+	sj, _ := json.Marshal(spec)
+	verdict := harnessTrouble(isolated("c16finalstress", []string{string(sj)}, nil))
+	if strings.HasPrefix(verdict, "FAIL:") {
+		rt.Fatalf("%s\nspec %s", verdict, sj)
+	}
+	if strings.HasPrefix(verdict, "SKIP:") {
+		rec.Case(false, 0, nil, "skipped:final-vs-close-stress")
+		return
+	}
+	rec.Case(true, stats.HashString(fmt.Sprintf("finalstress/%s/%d", sj, finalStressN.Add(1))), func() string { return "final response vs handler close, stress: " + string(sj) }, "final-vs-close-stress")
+	rec.Class("final-vs-close-stress-rounds", int64(spec.Rounds*spec.Workers))
+}
+
+func TestC16FinalVsCloseStress(t *testing.T) {
+	if os.Getenv("VERIF_FINALCLOSE_OFF") != "" { // only for seeded changes written against the tree before the repair this test called for
+		t.Skip("switched off")
+	}
+	rapid.Check(t, c16FinalVsCloseStress)
 }
 
 func TestC16FinalVsClose(t *testing.T) {
